@@ -39,6 +39,7 @@ class Searches:
         typed_haystack = Nodes.typed_value(haystack)
         typed_needle = Nodes.typed_value(needle)
         needle_type = type(typed_needle)
+        haystack_text = str(haystack)
         matches: bool = False
 
         if method is PathSearchMethods.EQUALS:
@@ -49,13 +50,13 @@ class Searches:
             elif isinstance(typed_haystack, float) and needle_type is float:
                 matches = typed_haystack == typed_needle
             else:
-                matches = str(typed_haystack) == str(needle)
+                matches = haystack_text == str(needle)
         elif method is PathSearchMethods.STARTS_WITH:
-            matches = str(typed_haystack).startswith(needle)
+            matches = haystack_text.startswith(needle)
         elif method is PathSearchMethods.ENDS_WITH:
-            matches = str(typed_haystack).endswith(needle)
+            matches = haystack_text.endswith(needle)
         elif method is PathSearchMethods.CONTAINS:
-            matches = needle in str(typed_haystack)
+            matches = needle in haystack_text
         elif method is PathSearchMethods.GREATER_THAN:
             if isinstance(typed_haystack, int):
                 if isinstance(typed_needle, (int, float)):
@@ -68,7 +69,7 @@ class Searches:
                 else:
                     matches = False
             else:
-                matches = str(typed_haystack) > str(needle)
+                matches = haystack_text > str(needle)
         elif method is PathSearchMethods.LESS_THAN:
             if isinstance(typed_haystack, int):
                 if isinstance(typed_needle, (int, float)):
@@ -81,7 +82,7 @@ class Searches:
                 else:
                     matches = False
             else:
-                matches = str(typed_haystack) < str(needle)
+                matches = haystack_text < str(needle)
         elif method is PathSearchMethods.GREATER_THAN_OR_EQUAL:
             if isinstance(typed_haystack, int):
                 if isinstance(typed_needle, (int, float)):
@@ -94,7 +95,7 @@ class Searches:
                 else:
                     matches = False
             else:
-                matches = str(typed_haystack) >= str(needle)
+                matches = haystack_text >= str(needle)
         elif method is PathSearchMethods.LESS_THAN_OR_EQUAL:
             if isinstance(typed_haystack, int):
                 if isinstance(typed_needle, (int, float)):
@@ -107,10 +108,10 @@ class Searches:
                 else:
                     matches = False
             else:
-                matches = str(typed_haystack) <= str(needle)
+                matches = haystack_text <= str(needle)
         elif method == PathSearchMethods.REGEX:
             matcher = re.compile(needle)
-            matches = matcher.search(str(typed_haystack)) is not None
+            matches = matcher.search(haystack_text) is not None
         else:
             raise NotImplementedError
 
